@@ -314,6 +314,7 @@ enum TState {
 }
 
 struct Slot {
+    pthread: libc::pthread_t,
     park: AtomicU32,
     state: TState,
     timed_out: bool,
@@ -475,12 +476,15 @@ impl Sim {
     }
 
     fn fatal(&mut self, what: &str) -> ! {
-        // written by the token holder; the process ends here
+        // executed by the token holder; the process ends here. For budget stops, say *where* the
+        // thread was: the outermost frame of the code under test that owns a loop (k-shortest-path
+        // algorithm, plugin, ...), else the innermost frame of the code under test.
+        let site = if what.contains("budget") { stack_site() } else { String::new() };
+        let what = if site.is_empty() { what.to_string() } else { format!("{} @{}", what, site) };
         let msg = format!("{{\"fatal\":{:?},\"steps\":{},\"switches\":{}}}\n", what, self.stats.steps, self.stats.switches);
-        FATAL_HOOK.with(|_| {});
         unsafe {
             if let Some(h) = FATAL_CB {
-                h(what, self);
+                h(&what, self);
             }
         }
         raw_write_fd(self.fatal_fd, msg.as_bytes());
@@ -668,8 +672,36 @@ impl Sim {
     }
 }
 
+/// where is the current thread inside the code under test? (symbol names, no addresses)
+fn stack_site() -> String {
+    let bt = std::backtrace::Backtrace::force_capture().to_string();
+    let mut frames: Vec<String> = vec![];
+    for line in bt.lines() {
+        let l = line.trim();
+        if let Some(pos) = l.find(": ") {
+            let name = &l[pos + 2..];
+            if name.starts_with("routee_compass") || name.starts_with("<routee_compass") {
+                // strip the hash suffix and generic arguments
+                let name = name.split("::h").next().unwrap_or(name);
+                frames.push(name.to_string());
+            }
+        }
+    }
+    // frames are innermost first
+    let owners = ["ksp::yens_algorithm", "ksp::single_via_paths_algorithm", "plugin::input::default::", "plugin::output::default::", "util::multiset"];
+    for f in frames.iter().rev() {
+        for o in owners.iter() {
+            if let Some(i) = f.find(o) {
+                let rest = &f[i..];
+                let seg: Vec<&str> = rest.split("::").take(if o.ends_with("::") { 5 } else { 2 }).collect();
+                return seg.join("::");
+            }
+        }
+    }
+    frames.first().cloned().unwrap_or_else(|| "unknown".to_string())
+}
+
 static mut FATAL_CB: Option<fn(&str, &mut Sim)> = None;
-thread_local! { static FATAL_HOOK: () = const { () }; }
 pub fn set_fatal_cb(f: fn(&str, &mut Sim)) {
     unsafe { FATAL_CB = Some(f) }
 }
@@ -683,6 +715,7 @@ pub fn start(cfg: SimCfg, dec: Decider, fatal_fd: i32) {
     let mut slots = Vec::with_capacity(MAX_THREADS);
     for _ in 0..MAX_THREADS {
         slots.push(Slot {
+            pthread: 0,
             park: AtomicU32::new(0),
             state: TState::Unused,
             timed_out: false,
@@ -722,10 +755,76 @@ pub fn start(cfg: SimCfg, dec: Decider, fatal_fd: i32) {
     s.stats.trace_hash = 0xcbf29ce484222325;
     s.stats.sched_hash = 0xcbf29ce484222325;
     s.slots[0].state = TState::Runnable;
+    s.slots[0].pthread = unsafe { libc::pthread_self() };
     s.slots[0].prio = 1 << 40;
     s.stats.threads = 1;
     SIM.store(Box::into_raw(s), Ordering::Release);
     TID.with(|c| c.set(0));
+    start_watchdog();
+}
+
+/// Wall-clock backstop for loops that contain no scheduling point at all (no allocation, lock or
+/// system call): an un-simulated thread watches the step counter; when it has not moved for
+/// STALL_SECS it signals the thread holding the token, whose handler reports where it is and stops
+/// the run. Only ever fires on a thread that would otherwise spin until the parent's kill.
+const STALL_SECS: u64 = 8;
+extern "C" fn on_stall(_sig: libc::c_int) {
+    let p = SIM.load(Ordering::Acquire);
+    if p.is_null() {
+        return;
+    }
+    IN_SIM.with(|c| c.set(true));
+    // unwinding from an asynchronous signal frame can itself fault: report that instead of crashing
+    unsafe {
+        let mut sa: libc::sigaction = std::mem::zeroed();
+        sa.sa_sigaction = on_segv_in_stall as usize;
+        sa.sa_flags = libc::SA_NODEFER;
+        libc::sigaction(libc::SIGSEGV, &sa, std::ptr::null_mut());
+        libc::sigaction(libc::SIGBUS, &sa, std::ptr::null_mut());
+    }
+    let s = unsafe { &mut *p };
+    s.fatal("stall budget exceeded: no scheduling point for several seconds of wall-clock time");
+}
+extern "C" fn on_segv_in_stall(_sig: libc::c_int) {
+    let p = SIM.load(Ordering::Acquire);
+    let fd = if p.is_null() { 2 } else { unsafe { (*p).fatal_fd } };
+    raw_write_fd(fd, b"{\"fatal\":\"stall budget exceeded: no scheduling point for several seconds of wall-clock time @unwind-failed\"}\n");
+    raw_exit(3)
+}
+fn start_watchdog() {
+    unsafe {
+        let mut sa: libc::sigaction = std::mem::zeroed();
+        sa.sa_sigaction = on_stall as usize;
+        sa.sa_flags = 0;
+        libc::sigaction(libc::SIGUSR2, &sa, std::ptr::null_mut());
+    }
+    let _ = std::thread::Builder::new().name("sim-watchdog".into()).spawn(|| {
+        let mut last = u64::MAX;
+        let mut same = 0u64;
+        loop {
+            std::thread::sleep(std::time::Duration::from_secs(1));
+            let p = SIM.load(Ordering::Acquire);
+            if p.is_null() {
+                return;
+            }
+            let (steps, allocs, cur_thread) = unsafe {
+                let s = &*p;
+                let cur = std::ptr::read_volatile(&s.cur);
+                (std::ptr::read_volatile(&s.stats.steps), std::ptr::read_volatile(&s.slots[cur].alloc_bytes), std::ptr::read_volatile(&s.slots[cur].pthread))
+            };
+            let mark = steps.wrapping_mul(31).wrapping_add(allocs);
+            if mark == last {
+                same += 1;
+                if same >= STALL_SECS && cur_thread != 0 {
+                    unsafe { libc::pthread_kill(cur_thread, libc::SIGUSR2) };
+                    return;
+                }
+            } else {
+                same = 0;
+                last = mark;
+            }
+        }
+    });
 }
 
 /// Access the simulator from harness code running on a registered thread (token holder).
@@ -785,6 +884,7 @@ pub fn thread_begin(id: usize) {
     // not registered yet: wait for the token without touching simulator state
     let s = sim();
     s.wait_token(id);
+    s.slots[id].pthread = unsafe { libc::pthread_self() };
     TID.with(|c| c.set(id));
 }
 /// last thing a simulated thread does
@@ -877,6 +977,9 @@ pub fn hook_alloc(size: usize) {
         return;
     }
     let s = unsafe { &mut *p };
+    if s.quiet {
+        return;
+    }
     s.slots[tid].alloc_count += 1;
     s.slots[tid].alloc_bytes += size as u64;
     let every = s.cfg.alloc_every;
